@@ -407,7 +407,7 @@ def _sweep_cases():
 
 
 def streams(tier):
-    n = 800 if tier == "quick" else 30000
+    n = 800 if tier == "quick" else 15000
     return [
         Stream("freq-x-part-boundaries", "fixed", 0, 4, _sweep_cases, True, False, timeout_s=5),
         Stream("rules", "hyp", n, 16, rules, timeout_s=5),
